@@ -81,7 +81,7 @@ func c09new(caller bool, reentw ...bool) *c09world {
 		w.loggers[name] = l
 	}
 	root := slog.VerifEntryOf(slog.New("root"))
-	mk("probed", root.New("probed").SetAttrs(slog.NewAttr("own", 1), slog.NewAttr("own2", "two"), slog.Group("og", "m", 1, "l", 2)))
+	mk("probed", root.New("probed\x01\u00e9").SetAttrs(slog.NewAttr("own", 1), slog.NewAttr("own2", "two"), slog.Group("og", "m", 1, "l", 2)))
 	mk("sibling", root.New("sibling").SetAttrs(slog.NewAttr("sib", "x"), slog.Group("sg", "a", 1)))
 	mk("default", slog.VerifEntryOf(slog.Default()))
 	return w
@@ -104,7 +104,10 @@ func (w *c09world) issue(k c09call) {
 	case "attrs":
 		l.WriteThru(bg, sev, fixedTime, 0, "with attributes", slog.Attrs{slog.NewAttr("s", "a b"), slog.NewAttr("i", 42), slog.NewAttr("t", tsUTC), slog.NewAttr("d", time.Second)})
 	case "rich":
-		l.WriteThru(bg, sev, fixedTime, 0, "line one\nline two\nline three", slog.Attrs{slog.Group("g", "x", 1, slog.Group("h", "y", "z")), slog.NewAttr("err", errors.New("boom")), slog.NewAttr("bytes", []byte("raw"))})
+		l.WriteThru(bg, sev, fixedTime, 0, "line one\nline two\nline three", slog.Attrs{slog.Group("g", "x", 1, slog.Group("h", "y", "z", "inner", errors.New("an error inside a group"))), slog.NewAttr("err", errors.New("boom")), slog.NewAttr("bytes", []byte("raw"))})
+	case "zone-instant":
+		// the same instant as every other record's, seen from a zone with a seconds offset (the flags ask for the instant's own zone)
+		l.WriteThru(bg, sev, fixedTime.In(time.FixedZone("", 5*3600+30*60+15)), 0, "same instant, another zone", slog.Attrs{slog.NewAttr("t", fixedTime.In(time.FixedZone("", -3*3600)))})
 	case "rich-eol":
 		l.WriteThru(bg, sev, fixedTime, 0, "first line\nsecond line\n", slog.Attrs{slog.NewAttr("err", errors.New("boom")), slog.NewAttr("k", 1)})
 	case "egroup":
@@ -157,7 +160,10 @@ func c09calls(thorough bool) (hist, probes []c09call) {
 	// history alphabet: a representative subset issued on the probed logger, a sibling and the default logger
 	for _, f := range []string{"color", "json", "logfmt"} {
 		for _, s := range []slog.Level{slog.ErrorLevel, c09Colored, slog.TraceLevel} {
-			for _, sh := range []string{"rich", "rich-eol", "egroup", "verb", "verb-small", "plain", "reent", "verb-scoped-flags", "value-panics"} {
+			for _, sh := range []string{"rich", "rich-eol", "egroup", "verb", "verb-small", "plain", "reent", "verb-scoped-flags", "value-panics", "zone-instant"} {
+				if sh == "zone-instant" && (s != slog.ErrorLevel || !thorough && f == "logfmt") {
+					continue
+				}
 				if sh == "value-panics" && (s != slog.ErrorLevel || !thorough && f == "json") {
 					continue
 				}
@@ -273,7 +279,7 @@ func c09run(c *Ctx) {
 			return
 		}
 		for _, h := range hist {
-			if len(p) == 2 && h.Shape != "rich" && h.Shape != "reent" && h.Shape != "value-panics" && h.Shape != "verb-scoped-flags" && h.Shape != "verb" && h.Shape != "verb-small" && h.Shape != "egroup" && h.Shape != "rich-eol" {
+			if len(p) == 2 && h.Shape != "rich" && h.Shape != "reent" && h.Shape != "value-panics" && h.Shape != "zone-instant" && h.Shape != "verb-scoped-flags" && h.Shape != "verb" && h.Shape != "verb-small" && h.Shape != "egroup" && h.Shape != "rich-eol" {
 				continue // third history element: the shapes that touch the most state
 			}
 			if !c.Thorough() && len(p) == 1 && (h.Shape == "plain" || (h.Shape == "rich" || h.Shape == "rich-eol" || h.Shape == "egroup") && h.Target != "probed" || slog.Level(h.Sev) == slog.TraceLevel) {
@@ -287,7 +293,12 @@ func c09run(c *Ctx) {
 	c.Info("histories", len(histories))
 	n := 0
 	maxPts := 0
+	testMode := slog.VerifInTesting()
+	c.Info("go_test_mode", testMode)
 	for hi, h := range histories {
+		if testMode && !c.Thorough() && len(h) >= 2 && hi%8 != 0 {
+			continue // the go-test-mode pass of the quick tier: every history of length <= 1, every eighth longer one
+		}
 		for pi, p := range probes {
 			// histories of length 3: every probe meets every history in some caller setting; length <=2: both caller settings
 			callers := []bool{false, true}
